@@ -297,7 +297,8 @@ def GT2timeFrac (localOff : Int) (bs : Bytes) (asGmt : Bool) : TRes :=
     let tm_s : Tm := { sec := tl.sec - tl.gmtoff, min := tl.min, hour := hour, mday := mday,
                        mon := mon - 1, year := year - 1900, gmtoff := 0 }
     let tloc := if tl.offsetSpecified then timegm tm_s else timegm tm_s - localOff   -- mktime
-    if tloc = -1 then .einval else
+    -- `if(tloc == -1 && tm_s.tm_wday == -1)`: a *failure* of timegm()/mktime(); the calendar model never
+    -- fails (64-bit `time_t`), and the instant -1 itself is an ordinary result (F60 repaired)
     let rtm := if asGmt then gmtime tloc else localtime tloc localOff
     .ok tloc tl.fvalue tl.fdigits rtm
 
